@@ -67,8 +67,8 @@ def generate(ctx):
     if ladder is None:
         raise ctx.TranslateError('runtime.py: operator ladder (try: if bin_op == ...) not found')
     handlers = sorted(ast.unparse(h.type).replace(' ', '') for h in ladder.handlers)
-    if handlers != ['(ArithmeticError,ValueError)']:
-        raise ctx.TranslateError(f'runtime.py: the operator ladder is guarded by {handlers}, expected (ArithmeticError, ValueError)')
+    if handlers != ['(ArithmeticError,ValueError,RecursionError)']:
+        raise ctx.TranslateError(f'runtime.py: the operator ladder is guarded by {handlers}, expected (ArithmeticError, ValueError, RecursionError)')
     ops = []        # (operator or None for the final else, guards or None)
     node = ladder.body[0]
     while True:
